@@ -293,7 +293,7 @@ mutual
 /-- the smallest tier whose theorem speaks about this tree (given that `toPat` succeeds):
     1 = empty, nothing, anchors, One/Notone/Set, Multi, Concatenate, Alternate, Capture, Group;
     2 = + single-character loops; 3 = + Atomic, lookahead; 4 = + Loop/Lazyloop (general loops, any body);
-    5 = + `UpdateBumpalong`; 6 = + Ref, BackRefCond, ExprCond; 7 = + lookbehind (and, in `InFrag`, the tree option
+    5 = + `UpdateBumpalong`; 6 = + Ref (case-sensitive), BackRefCond, ExprCond; 7 = + lookbehind (and, in `InFrag`, the tree option
     RightToLeft); 8 = + ECMAScript boundaries; 9 = balancing groups, unknown nodes -/
 def tier : GoNode → Nat
   | .empty => 1
@@ -302,7 +302,7 @@ def tier : GoNode → Nat
   | .char _ _ _ _ => 1
   | .set _ _ _ => 1
   | .multi _ _ _ => 1
-  | .ref _ _ _ => 6
+  | .ref _ ci _ => if ci then 9 else 6
   | .charloop _ _ _ _ _ _ => 2
   | .setloop _ _ _ _ _ _ => 2
   | .concat cs => tierList cs
@@ -324,9 +324,12 @@ def tierList : List GoNode → Nat
 end
 
 /-- **the fragment of tier `k`**: the root is the implicit capture of group 0, the translation succeeds with
-    every direction bit left-to-right, only node types of tiers `≤ k` occur, and group 0 has slot 0 -/
+    every direction bit left-to-right, only node types of tiers `≤ k` occur, group 0 has slot 0, and — for a tree of
+    tier 6 or more, where groups are read back (`Ref`, `Testref`) — the writer numbers the capture slots by the group
+    numbers themselves (no `caps` map: the group numbers are dense) -/
 def InFrag (k : Nat) (X : TP) (ti : TreeInfo) (t : GoNode) : Bool :=
-  (toPatRoot X false t).isSome && decide (tier t ≤ k) && !ti.rtl && mapCapnum (mainCfg ti) 0 == 0
+  (toPatRoot X false t).isSome && decide (tier t ≤ k) && !ti.rtl && mapCapnum (mainCfg ti) 0 == 0 &&
+    (decide (tier t < 6) || (writerCaps ti).2.isNone)
 
 /-! ## the simulation vocabulary -/
 
